@@ -1,9 +1,12 @@
+import Harper.Driver.Ignore
+import Harper.Driver.Title
 import Harper.Driver.PosConv
 import Harper.Driver.Stats
 import Harper.Driver.NumberSuffix
 import Harper.Driver.Suggestion
 import Harper.Driver.Overlaps
 import Harper.Driver.Lex
+import Harper.Driver.Spell
 /-! Dispatch table of the model driver: first word of an op line → handler on the remaining words. -/
 namespace Harper.Driver
 
@@ -11,6 +14,7 @@ def handlers : List (String × (List String → String)) := [
   ("ro", handleRo),
   ("ri", handleRi),
   ("lex", handleLex),
+  ("acc", handleAcc),
   ("f64", handleF64),
   ("apply", handleApply),
   ("rebase", handleRebase),
@@ -30,7 +34,10 @@ def handlers : List (String × (List String → String)) := [
   ("sum", handleSum),
   ("i2p", handleI2p), ("p2i", handleP2i), ("s2r", handleS2r), ("r2s", handleR2s),
   ("edit", handleEdit), ("sel", handleSel), ("sapply", handleSpliceApply),
-  ("cdec", handleCdec), ("capply", handleCapply)
+  ("cdec", handleCdec), ("capply", handleCapply),
+  ("ig", handleIg),
+  ("ce", handleCe),
+  ("tc", handleTc)
 ]
 
 def handle (line : String) : String :=
